@@ -532,6 +532,9 @@ def gen_c20(ctx, n):
             nq = len(ops)
             for _r in range(4):
                 ops += all_node_ops(kb)
+            if rng.random() < 0.4:
+                # the same model is used again: bounds go back to the data, the query is asked again
+                ops += [[7], [5, rng.choice([-1, q]), 30]]
         scs.append([3, kb, roots, data, ops, hidden or [], nq])
         metas.append({"mode": "consistent", "hidden": hidden, "nobj": len(kb), "kinds": sorted(set(o[0] for o in kb))})
     return scs, metas
@@ -554,6 +557,10 @@ def mon_c20(sc, obs):
                     return (f"op #{n} {op}: object {i} is not a sub-formula of source {op[1]} and stays {before[i]}", f"{after[i]}", None)
         if op[0] == 6:
             q = op[1]
+        if op[0] == 7:
+            verdict = None       # reset_bounds() legitimately takes every bound back to the data
+        if op[0] == 5 and nq and n > nq and raw[0] == 0 and after[q] not in ((F(1), F(1)), (F(0), F(0))):
+            return (f"op #{n} {op}: infer() stops before its first step only when the query {q} is classically resolved", f"0 steps with the query at {after[q]}", None)
         if nq and n == nq - 1:
             b = after[q]
             if b in ((F(1), F(1)), (F(0), F(0))):
